@@ -525,7 +525,7 @@ def _utt_windows(case, utt):
     return [(s, e) for _, s, e in ws]
 
 
-@subcheck("C10", "chunk_dir_cli", lambda tier: _dir_cases(tier), 160, 4000,
+@subcheck("C10", "chunk_dir_cli", lambda tier: _dir_cases(tier), 240, 4000,
           doc="a generated well-formed data directory (1..3|5 utterances, feat + optional ali / ref) is chunked by the "
               "chunk-torch-spect-data-dir command under generated flags (policy, window, lobe, pad mode, partial, retain, format): "
               "exactly the oracle's chunk names are written, every chunk's feat / ali / ref equals the oracle's restriction of the "
